@@ -70,6 +70,8 @@ def render_derive(inp):
         "dup_utf8": ["#[logos(utf8 = true, utf8 = true)]"],
         "unknown_logos": ["#[logos(foo = 1)]"], "logos_no_parens": ["#[logos]"], "bad_utf8_val": ["#[logos(utf8 = 3)]"],
         "skip_nullable": ['#[logos(skip "a*")]'], "skip_bad_lit": ["#[logos(skip 5)]"],
+        "skip_nonutf8": ['#[logos(skip b"\\xc3")]'], "skip_nonutf8_group": ['#[logos(skip(b"\\xff+", priority = 3))]'],
+        "skip_greedy": ['#[logos(skip "#.*")]'], "skip_undef_sub": ['#[logos(skip "(?&nope)+")]'], "skip_lookstart": ['#[logos(skip "^#")]'],
         "sub_dup": ['#[logos(subpattern a = "a")]', '#[logos(subpattern a = "b")]'],
         "sub_bad_name": ['#[logos(subpattern = "a")]'],
         "sub_undef_ref": ['#[logos(subpattern a = "(?&zzz)")]'],
